@@ -42,7 +42,9 @@ func (self *Interpreter) callFunc(span errors.Span, val value.Value, args []ast.
 		// A function sees the globals of its module and its own locals, not the locals of its caller.
 		calleeModule := self.currentModule
 		callerScopes := calleeModule.scopes
-		calleeModule.scopes = []map[string]*value.Value{callerScopes[0]}
+		// (while a closure runs, the scopes of the current module are the closure's: the first of them
+		// is the root scope of the module which created the closure, not necessarily of this one)
+		calleeModule.scopes = []map[string]*value.Value{calleeModule.root}
 
 		self.callStackSize++
 		self.pushScope()
